@@ -598,7 +598,7 @@ func genOvlCfg(r *hx.Rng) ovlCfg {
 func init() { hx.Register("C13", Run, Replay) }
 
 func Run(c *hx.Ctx) {
-	c.Rep.Rule = "split: texts of 11 kinds (ASCII prose, spaced prose with a space every 50 bytes, CJK without spaces, emoji/ZWJ, combining sequences, long tokens, whitespace only, mixed, Latin-1 mixed, invalid UTF-8, whitespace-edged) x 5 units x limits 1..4000 x dyadic tokens-per-char, length 0..4x the limit; bound: characters/tokens, limit >= 200, generated with a space every 50 bytes and sentence ends placed at the limit; doc: 1-3 paragraphs through ChunkDocumentWithConfig; ovl: 1-5 chunk texts x 4 strategies x sizes through ApplyOverlapToChunks; cwo: paragraph documents through ChunkWithOverlapEnabled (character and sentence overlap); non-trivial = more than one piece / at least one overlap applied"
+	c.Rep.Rule = "split: texts of 11 kinds (ASCII prose, spaced prose with a space every 50 bytes, CJK without spaces, emoji/ZWJ, combining sequences, long tokens, whitespace only, mixed, Latin-1 mixed, invalid UTF-8, whitespace-edged) x 5 units x limits 1..4000 x dyadic tokens-per-char, length 0..4x the limit; bound: characters/tokens, limit >= 200, generated with a space every 50 bytes and sentence ends placed at the limit; sweep: for hard maxima in characters and tokens (>= 1 token per byte, thorough also < 1), prose with a space every 50 bytes (4 backgrounds: short words, 30-45 byte words, competing punctuation, multi-byte words) in which each kind of break opportunity (sentence end + space, sentence end + closing quote/bracket + space, sentence end + line/paragraph break, clause punctuation, bare newline, paragraph break, plain space, punctuation without whitespace) starts at EVERY byte offset limit-60..limit+3 of the text (first piece) and at every absolute offset that can be limit-60..limit+3 of the remainder after one (thorough: two) pieces, one in eight also through ChunkDocumentWithConfig; doc: 1-3 paragraphs through ChunkDocumentWithConfig; ovl: 1-5 chunk texts x 4 strategies x sizes through ApplyOverlapToChunks; cwo: paragraph documents through ChunkWithOverlapEnabled (character and sentence overlap); non-trivial = more than one piece / at least one overlap applied"
 	// hand-picked edge cases first
 	for _, e := range edgeCases() {
 		if !runSplit(c, e.text, e.cfg) {
@@ -637,6 +637,10 @@ func Run(c *hx.Ctx) {
 		}
 		c.Count("text=bound")
 		c.Case("b"+cfgField(cfg)+text, true)
+	}
+	// alignment sweeps: every kind of break opportunity at every offset around the limit
+	if !runSweeps(c) {
+		return
 	}
 	n = c.N(400, 8000)
 	for i := 0; i < n; i++ {
